@@ -121,7 +121,23 @@ type S6 struct {
 	A  int
 }
 
-var structTypes = []reflect.Type{reflect.TypeOf(S1{}), reflect.TypeOf(S2{}), reflect.TypeOf(S3{}), reflect.TypeOf(S4{}), reflect.TypeOf(S5{}), reflect.TypeOf(S6{})}
+// named element / container types (reflect distinguishes them from their underlying types)
+type Octet uint8
+type Octets []Octet
+type NBytes []byte
+type NStrMap map[string]string
+
+// S7: a map and a list reached only through a field renamed by the tag (C05: absent keys below a renamed field)
+type S7 struct {
+	Labels map[string]string `bexpr:"labels" alt:"lab"`
+	Items  []S1              `bexpr:"items"`
+	W      Wrap
+	Oc     []Octet
+	NB     NBytes
+	Meta   NStrMap `bexpr:"meta"`
+}
+
+var structTypes = []reflect.Type{reflect.TypeOf(S1{}), reflect.TypeOf(S2{}), reflect.TypeOf(S3{}), reflect.TypeOf(S4{}), reflect.TypeOf(S5{}), reflect.TypeOf(S6{}), reflect.TypeOf(S7{})}
 
 var ifaceT = reflect.TypeOf((*interface{})(nil)).Elem()
 var strT = reflect.TypeOf("")
